@@ -74,11 +74,11 @@ func init() {
 	ev.Register(&ev.Prop{
 		ID:    "C10",
 		Level: "exploration",
-		Cases: func(t string) int { return gridSize(t) + randomCases(t) },
+		Cases: func(t string) int { return gridSize(t) + randomCases(t) + v3Cases(t) },
 		Batches: func(t string) int {
 			return 16
 		},
-		Rule: "grid cases = every (block length n, failing position p, failure kind) with n<=8 (thorough 24), kinds none / retryable once / retryable RetryCount times / retryable forever / retryable RetryCount+1 times / non-retryable (3 error codes) / retryable then non-retryable; random cases = blocks with 0..3 failing transactions. Every case is executed by real service transitions at ConcurrencyLevel 1 and at 2,3,8 (thorough +4,16) x 3 delay profiles (failing handler returns early / late / random relative to its neighbours), lock declarations world-write / shared accounts / disjoint accounts / none. Oracle: reported success => receipts == n, every transaction's handler was invoked, its LAST invocation returned a receipt and exactly that receipt sits at slot i (to/stepUsed identify i, cumulative steps are the prefix sums); a last invocation that returned an error (non-retryable, or retryable with the executor giving up) with reported success is a drop; reported failure => Result()==nil. Process panics are caught by the child isolation. Non-trivial = distinct (n, positions, kinds, level, lock mode, delay profile) with >=1 failing handler invocation.",
+		Rule: "grid cases = every (block length n, failing position p, failure kind) with n<=8 (thorough 24), kinds none / retryable once / retryable RetryCount times / retryable forever / retryable RetryCount+1 times / non-retryable (3 error codes) / retryable then non-retryable; random cases = blocks with 0..3 failing transactions. Every case is executed by real service transitions at ConcurrencyLevel 1 and at 2,3,8 (thorough +4,16) x 3 delay profiles (failing handler returns early / late / random relative to its neighbours), lock declarations world-write / shared accounts / disjoint accounts / none. Oracle: reported success => receipts == n, every transaction's handler was invoked, its LAST invocation returned a receipt and exactly that receipt sits at slot i (to/stepUsed identify i, cumulative steps are the prefix sums); a last invocation that returned an error (non-retryable, or retryable with the executor giving up) with reported success is a drop; reported failure => Result()==nil. V3 cases = blocks of transactions executed by goloop's regular transaction handler (transaction.NewHandler: balance check, steps, contract call, DoExecute status classification, fee, receipt) in which the CONTRACT handler of the transaction at position p (every p of every n<=5, thorough 10) ends with revert / CriticalIOError / CriticalUnknownError / CriticalFormatError / ExecutionFailError once, RetryCount times, forever, once-then-critical, at levels 1,2,4 (thorough 1,2,3,8); same oracle (a contract call whose last ending was a critical or given-up retryable status + reported success = drop). Process panics are caught by the child isolation. Non-trivial = distinct (n, positions, kinds, level, lock mode, delay profile) with >=1 failing handler invocation.",
 		MinNonTrivial: func(t string) int {
 			if t == ev.Thorough {
 				return 30000
@@ -89,7 +89,9 @@ func init() {
 			"conc_block_failed_fatal", "conc_block_failed_exhausted", "seq_block_failed_fatal", "seq_block_failed_exhausted",
 			"conc_block_ok_after_retry", "seq_block_ok_after_retry",
 			"conc_failing_tx_finished_last", "conc_failing_tx_finished_first", "conc_failing_tx_in_last_level_positions",
-			"conc_overlapping_blocks"},
+			"conc_overlapping_blocks",
+			"v3_seq_block_failed_critical", "v3_conc_block_failed_critical", "v3_seq_block_failed_exhausted", "v3_conc_block_failed_exhausted",
+			"v3_seq_block_ok_after_retry", "v3_conc_block_ok_after_retry", "v3_receipts_attributed"},
 		Assumptions: []string{
 			"scripted transaction type (lib/svc) registered through transaction.RegisterFactory stands in for contract handlers; the executor, retry loop, error latch and receipt aggregation are goloop's",
 			"basic platform, empty initial world state, MapDB",
@@ -221,7 +223,20 @@ func run(c *ev.Ctx) {
 	}
 	c.Count(fmt.Sprintf("gomaxprocs_%d_batches", runtime.GOMAXPROCS(0)), 1)
 	sub := 0
+	var feeRoot module.Transition
 	c.Cases(func(ci int, r *rand.Rand) {
+		if ci >= gridSize(c.Tier)+randomCases(c.Tier) {
+			if feeRoot == nil {
+				so := env.Run(root, []module.Transaction{svc.NewSetupTx(fmt.Sprintf("C10/%d/%d", c.Seed, c.Batch), 1)}, 1, 1, 1, true, 120*time.Second)
+				if !so.Succeeded() {
+					c.Violation("harness.fee-setup-block-failed", fmt.Sprint(so.StartErr, so.ValidateErr, so.ExecuteErr, so.TimedOut))
+					return
+				}
+				feeRoot = so.Tr
+			}
+			v3Case(c, env, feeRoot, r, ci, ci-gridSize(c.Tier)-randomCases(c.Tier), &sub)
+			return
+		}
 		spec := specOfCase(c.Tier, ci, r)
 		for _, level := range levels(c.Tier) {
 			for prof := 0; prof < nProfiles; prof++ {
@@ -443,4 +458,175 @@ func failsDesc(b *blockSpec) map[string]string {
 		m[fmt.Sprint(p)] = kinds[k].name
 	}
 	return m
+}
+
+// ---- transactions run by goloop's regular transaction handler, fault inside the contract call
+
+type callKind struct {
+	name              string
+	kind, retry, then byte
+	blockFails        bool
+	critical          bool
+}
+
+var callKinds = []callKind{
+	{"revert", svc.CallRevert, 0, 0, false, false},
+	{"critical-io", svc.CallCriticalIO, 0, 0, true, true},
+	{"critical-unknown", svc.CallCriticalUnk, 0, 0, true, true},
+	{"critical-format", svc.CallCriticalFmt, 0, 0, true, true},
+	{"exec-fail-once-then-ok", svc.CallExecFail, 1, svc.CallOK, false, false},
+	{"exec-fail-retrycount-then-ok", svc.CallExecFail, service.RetryCount, svc.CallOK, false, false},
+	{"exec-fail-forever", svc.CallExecFail, 255, 0, true, false},
+	{"exec-fail-once-then-critical-io", svc.CallExecFail, 1, svc.CallCriticalIO, true, true},
+}
+
+func v3MaxN(t string) int {
+	if t == ev.Thorough {
+		return 10
+	}
+	return 5
+}
+
+func v3Cases(t string) int {
+	n := v3MaxN(t)
+	return n * (n + 1) / 2 * len(callKinds)
+}
+
+func v3Levels(t string) []int {
+	if t == ev.Thorough {
+		return []int{1, 2, 3, 8}
+	}
+	return []int{1, 2, 4}
+}
+
+var v3Run uint32
+
+func v3Case(c *ev.Ctx, env *svc.Env, parent module.Transition, r *rand.Rand, ci, vi int, sub *int) {
+	ck := callKinds[vi%len(callKinds)]
+	j := vi / len(callKinds)
+	n := 1
+	for j >= n {
+		j -= n
+		n++
+	}
+	pos := j
+	const ts = int64(1_700_000_000_000_000)
+	for li, level := range v3Levels(c.Tier) {
+		if c.Stopped() {
+			return
+		}
+		if li > 0 {
+			c.Eval(1)
+		}
+		*sub++
+		v3Run++
+		run := v3Run<<8 | uint32(c.Batch)
+		salt := fmt.Sprintf("C10/%d/%d/%d/v3", c.Seed, ci, *sub)
+		tos := make([]module.Address, n)
+		txs := make([]module.Transaction, n)
+		senderBase := r.Intn(svc.NSenders)
+		sameSender := r.Intn(4) == 0
+		for i := 0; i < n; i++ {
+			if i == pos {
+				tos[i] = svc.FaultAddr(run, i, ck.kind, ck.retry, ck.then)
+			} else {
+				tos[i] = svc.PlainAddr(run, i)
+			}
+			from := svc.SenderAddr((senderBase + i) % svc.NSenders)
+			if sameSender {
+				from = svc.SenderAddr(senderBase)
+			}
+			txs[i] = svc.NewCallTx(salt, i, ts, from, tos[i])
+		}
+		c.Note("v3 transition sub=%d n=%d level=%d fault_position=%d contract_call_ending=%s same_sender=%v to=%s",
+			*sub, n, level, pos, ck.name, sameSender, tos[pos])
+		o := env.Run(parent, txs, 2, ts, level, true, 120*time.Second)
+		if o.TimedOut {
+			c.Notef("case %d sub %d: v3 transition never called back within 120 s (level=%d); waiting for the batch watchdog", ci, *sub, level)
+			select {}
+		}
+		calls := env.Faults.Calls(tos[pos])
+		mode := "seq"
+		if level > 1 {
+			mode = "conc"
+		}
+		c.Count("v3_transitions_"+mode, 1)
+		wit := func(extra map[string]interface{}) map[string]interface{} {
+			w := map[string]interface{}{"stage": "regular transaction handler (transaction.NewHandler), fault inside the contract call",
+				"n": n, "level": level, "fault_position": pos, "contract_call_ending": ck.name, "same_sender": sameSender,
+				"fault_to": tos[pos].String(), "contract_handler_calls": calls,
+				"on_execute_err": fmt.Sprint(o.ExecuteErr), "on_validate_err": fmt.Sprint(o.ValidateErr), "receipts": len(o.Receipts)}
+			var st []string
+			for _, rc := range o.Receipts {
+				st = append(st, rc.Status().String())
+			}
+			w["receipt_status"] = st
+			for k, v := range extra {
+				w[k] = v
+			}
+			return w
+		}
+		switch {
+		case o.StartErr != nil:
+			c.Violation("harness.execute-refused", wit(nil))
+			return
+		case o.Succeeded():
+			if len(o.Receipts) != n || o.ReceiptErr != nil {
+				c.Violation(mode+".v3.success.receipt-count", wit(nil))
+				return
+			}
+			if calls.Calls == 0 {
+				c.Violation(mode+".v3.success.tx-never-executed", wit(nil))
+				return
+			}
+			switch calls.LastKind {
+			case svc.CallCriticalIO, svc.CallCriticalUnk, svc.CallCriticalFmt:
+				c.Violation(mode+".v3.success.failed-tx-dropped.critical-status", wit(nil))
+				continue
+			case svc.CallExecFail:
+				c.Violation(mode+".v3.success.failed-tx-dropped.retry-exhausted", wit(nil))
+				continue
+			}
+			for i, rc := range o.Receipts {
+				if rc == nil || !rc.To().Equal(tos[i]) {
+					c.Violation(mode+".v3.success.receipt-out-of-order", wit(map[string]interface{}{"slot": i}))
+					return
+				}
+				wantOK := i != pos || calls.LastKind == svc.CallOK
+				if (rc.Status() == module.StatusSuccess) != wantOK {
+					c.Violation(mode+".v3.success.receipt-status", wit(map[string]interface{}{"slot": i, "status": rc.Status().String()}))
+					return
+				}
+				c.Count("v3_receipts_attributed", 1)
+			}
+			if calls.Calls > 1 {
+				c.Count("v3_"+mode+"_block_ok_after_retry", 1)
+			}
+			c.Count("v3_"+mode+"_block_succeeded", 1)
+		case o.Failed():
+			if o.Tr.Result() != nil {
+				c.Violation(mode+".v3.failed.but-result-present", wit(nil))
+				return
+			}
+			switch {
+			case calls.LastKind == svc.CallCriticalIO || calls.LastKind == svc.CallCriticalUnk || calls.LastKind == svc.CallCriticalFmt:
+				c.Count("v3_"+mode+"_block_failed_critical", 1)
+			case calls.LastKind == svc.CallExecFail:
+				c.Count("v3_"+mode+"_block_failed_exhausted", 1)
+			default:
+				c.Count("v3_"+mode+"_block_failed_without_failing_tx", 1)
+				c.Notef("case %d sub %d: v3 block failed (%v) although the contract call ended %v", ci, *sub, o.ExecuteErr, calls.Statuses)
+			}
+		default:
+			c.Violation(mode+".v3.no-verdict", wit(nil))
+			return
+		}
+		c.Count("v3_callkind_"+ck.name, 1)
+		if ck.kind != svc.CallOK {
+			c.NonTrivial(fmt.Sprintf("v3|%d|%d|%s|%d|%v", n, pos, ck.name, level, sameSender))
+		}
+		if c.WantSample() && ck.critical && level > 1 {
+			c.Sample(wit(nil))
+		}
+	}
 }
